@@ -189,7 +189,13 @@ type seqCase struct {
 	Engine string  `json:"engine"`
 	Setup  []bt.Op `json:"setup"`
 	Ops    []bt.Op `json:"ops"`
+	// ReadsOnly: the ops are read-only requests of one batch; the replay sends them as the batch did, without a
+	// complete state comparison (which is a series of reads of its own) in between
+	ReadsOnly bool `json:"reads_only,omitempty"`
 }
+
+// runSeqNoState: see seqCase.ReadsOnly.
+var runSeqNoState bool
 
 // lastRunResp is the implementation's response to the last request of the last successful runSeq.
 var lastRunResp bt.Resp
@@ -206,6 +212,9 @@ func runSeq(c *fw.Ctx, engine string, setup, ops []bt.Op, checkAll bool) (mismat
 			return "setup: " + m, cl, -1, 0
 		}
 	}
+	if runSeqNoState {
+		w.stateCheck = false
+	}
 	for i := range ops {
 		m, cl := w.Step(&ops[i], checkAll || i == len(ops)-1)
 		if m != "" {
@@ -221,7 +230,9 @@ func runSeq(c *fw.Ctx, engine string, setup, ops []bt.Op, checkAll bool) (mismat
 }
 
 func replaySeq(c *fw.Ctx, id string, sc seqCase, tag func(*bt.Op) string) (string, string) {
+	runSeqNoState = sc.ReadsOnly
 	m, cl, at, _ := runSeq(c, sc.Engine, sc.Setup, sc.Ops, true)
+	runSeqNoState = false
 	if m == "" {
 		return "", ""
 	}
